@@ -12,6 +12,8 @@ CLAIMED = {
     'C07': ('model_checking', '§6 C07', 'for_each multiset = multiset of edges leaving reachable nodes (z3 equal-count for every triple) for bfs, dfs, pfs min/max, pre/postorder on four flavours; filtered runs assert that only accepted edges appear in paths, cycles and orders.'),
     'C09': ('model_checking', '§6 C09', 'search_cycle for bfs/dfs/pfs on four flavours, filter optional: Some iff a closed accepted path through the root exists; result chains root..root through existing accepted edges, no intermediate node twice, no edge more often than it exists (z3 counts), bfs shortest; undirected: closed walk.'),
     'C10': ('model_checking', '§6 C10', 'preorder/postorder (directed), order().pre()/.post() (undirected), search_nodes and search_edges, filter optional: result is the reachable set once each and is accepted by an exact DFS discovery-order automaton / exact finishing-order recogniser; search_edges gives one existing accepted edge into each non-root node in that order.'),
+    'C08': ('model_checking', '§6 C08', 'Differential self-composition on digraph and sync_digraph: the same free connect sequence builds G and, with endpoints swapped, G^R; each of the 16 configurations the API offers ({bfs,dfs,pfs-min,pfs-max} x {search,search_path,search_cycle}, {preorder,postorder} x {search_nodes,search_edges}) runs with transpose() on G and without on G^R with the same symbolic values, node values and filter F; results and closure call sequences must be equal term by term, and every edge handed to a closure must be a reversed incoming (transposed) / an outgoing (plain) edge of its source.'),
+    'C15': ('model_checking', '§6 C15', 'Every scenario family of the other checks (node operations and queries with handle provenance, all searches, cycles, orderings with target / transpose / filter / for_each, container and serde scenarios) is executed on the plain flavour and on the sync flavour in one executor path on shared symbolic inputs and shared iteration-order choices; all observations must be equal (z3).'),
 }
 NOTE = 'Trusted base: engine A std models (validated differentially against the native build on every run), rustc MIR dump = compiled code, z3. Bounds in evidence.coverage.bounds.'
 TECH = 'bounded symbolic execution of rustc MIR (own executor) + z3; native replay of counterexamples'
